@@ -616,7 +616,12 @@ impl ASN1Type {
                                 ))),
                             );
                         }
-                        (Parameter::InformationObjectParameter(_), _) => todo!(),
+                        (Parameter::InformationObjectParameter(_), _) => {
+                            return Err(grammar_error!(
+                                LinkerError,
+                                "Information objects as actual parameters are not supported: parameter {dummy_reference} of {identifier}"
+                            ))
+                        }
                         (Parameter::ObjectSetParameter(o), ParameterGovernor::Class(c)) => {
                             match &o.values.first() {
                                     Some(osv) if o.values.len() == 1 => {
